@@ -172,15 +172,18 @@ static void crystal_history(long hno, int maxlen, int builtin, const char *tmpdi
   if (builtin) len = maxlen;   /* built-in runs are long so that the fixed capacity is reached */
   for (step = 0; step < len; step++) {
     int op = xv_below(&r, 100), rv; m_crystal c; Crystal_Struct *s;
+    /* one step in four passes NO error slot: the outcome and the state of the collection must be the same */
+    xrl_error **ep = xv_below(&r, 4) ? &e : NULL;
+    if (!ep) TR("noslot:");
     hm_steps++; hm_last->step = step;
     if (op < 40 || (builtin && op < 85)) {                                  /* ---- add a fresh crystal */
       gen_crystal(&r, &c, NULL);
       if (m_find(&A, c.name) >= 0) continue;
       s = to_struct(&c, -1.0 - step); e = NULL; LAST("Crystal_AddCrystal(%s)", c.name); TR("add(%s,%d atoms);", c.name, c.n_atom);
-      rv = Crystal_AddCrystal(s, A.arr, &e); free_struct(s);
+      rv = Crystal_AddCrystal(s, A.arr, ep); free_struct(s);
       if (builtin && A.n >= CRYSTALARRAY_MAX) {
         count_op(OP_ADD, 2);
-        if (rv || !e) hm_violation("c14:builtin-grew-past-capacity", "Crystal_AddCrystal succeeded or set no error on the full built-in array");
+        if (rv || (ep && !e)) hm_violation("c14:builtin-grew-past-capacity", "Crystal_AddCrystal succeeded or set no error on the full built-in array");
         if (e) xrl_error_free(e);
         check_array(&A, "add-on-full-builtin");
         continue;
@@ -193,13 +196,13 @@ static void crystal_history(long hno, int maxlen, int builtin, const char *tmpdi
       if (!A.n) continue;
       c = A.c[xv_below(&r, A.n)]; c.cell[0] += 1.0;                          /* same name, different content */
       s = to_struct(&c, 0.0); e = NULL; LAST("Crystal_AddCrystal(dup %s)", c.name); TR("adddup(%s);", c.name);
-      rv = Crystal_AddCrystal(s, A.arr, &e); free_struct(s); count_op(OP_ADD_DUP, rv ? 1 : 0);
-      if (rv || !e) hm_violation("c14:duplicate-accepted", rv ? "Crystal_AddCrystal returned 1 for a name already present" : "0 without error");
+      rv = Crystal_AddCrystal(s, A.arr, ep); free_struct(s); count_op(OP_ADD_DUP, rv ? 1 : 0);
+      if (rv || (ep && !e)) hm_violation("c14:duplicate-accepted", rv ? "Crystal_AddCrystal returned 1 for a name already present" : "0 without error");
       if (e) xrl_error_free(e);
       check_array(&A, "duplicate-add");
     } else if (op < 53) {
-      e = NULL; LAST("Crystal_AddCrystal(NULL)"); TR("addnull;"); rv = Crystal_AddCrystal(NULL, A.arr, &e); count_op(OP_ADD_NULL, 0);
-      if (rv || !e) hm_violation("c14:null-crystal-accepted", "no error for a NULL crystal"); if (e) xrl_error_free(e);
+      e = NULL; LAST("Crystal_AddCrystal(NULL)"); TR("addnull;"); rv = Crystal_AddCrystal(NULL, A.arr, ep); count_op(OP_ADD_NULL, 0);
+      if (rv || (ep && !e)) hm_violation("c14:null-crystal-accepted", "no error for a NULL crystal"); if (e) xrl_error_free(e);
       check_array(&A, "null-add");
     } else if (op < 68 && !builtin) {                                       /* ---- crystal files */
       int kind = xv_below(&r, 10), ncr = 1 + xv_below(&r, kind < 5 ? 30 : 6), k, corrupt = 0, badpos = -1, dup = 0; m_crystal *fc = malloc(sizeof(m_crystal) * ncr); FILE *f; int ok = 1;
@@ -216,7 +219,7 @@ static void crystal_history(long hno, int maxlen, int builtin, const char *tmpdi
       fclose(f);
       e = NULL; LAST("Crystal_ReadFile(%s) kind=%d corrupt=%d dup=%d n=%d", path, kind, corrupt, dup, ncr);
       TR("readfile(n=%d,corrupt=%d@%d,dup=%d);", ncr, corrupt, badpos, dup);
-      rv = Crystal_ReadFile(path, A.arr, &e);
+      rv = Crystal_ReadFile(path, A.arr, ep);
       unlink(path);
       if (!corrupt && !dup) {
         count_op(OP_READ_OK, rv ? 0 : 1);
@@ -227,28 +230,28 @@ static void crystal_history(long hno, int maxlen, int builtin, const char *tmpdi
       } else if (corrupt == 6) {
         /* truncation may by chance leave a well-formed prefix: only the contract is checked (error xor success) */
         count_op(OP_READ_BAD, 2);
-        if ((rv != 0) == (e != NULL)) hm_violation("c14:readfile-truncated:error-iff-failure-broken", "return value and error slot disagree");
+        if (ep && (rv != 0) == (e != NULL)) hm_violation("c14:readfile-truncated:error-iff-failure-broken", "return value and error slot disagree");
         if (e) xrl_error_free(e);
         if (!rv) check_array(&A, "truncated-readfile");
         else { /* accepted a prefix: resynchronise the model from the library (not judged) */
           int n = 0, j; char **l = Crystal_GetCrystalsList(A.arr, &n, NULL); for (j = 0; l && l[j]; j++) { int q; for (q = 0; q < ncr; q++) if (!strcmp(fc[q].name, l[j]) && m_find(&A, l[j]) < 0) { Crystal_Struct *g = Crystal_GetCrystal(l[j], A.arr, NULL); if (g) { m_crystal t = fc[q]; t.n_atom = g->n_atom > MAXAT ? MAXAT : g->n_atom; memcpy(t.atom, g->atom, sizeof(Crystal_Atom) * t.n_atom); m_add(&A, &t); Crystal_Free(g); } } xrlFree(l[j]); } if (l) xrlFree(l); }
       } else {
         count_op(dup ? OP_READ_DUP : OP_READ_BAD, rv ? 1 : 0);
-        if (rv || !e) { snprintf(key, sizeof key, dup ? "c14:readfile:duplicate-accepted" : "c14:readfile:corrupt-file-accepted:kind%d", corrupt); hm_violation(key, rv ? "Crystal_ReadFile returned 1" : "0 without error"); }
+        if (rv || (ep && !e)) { snprintf(key, sizeof key, dup ? "c14:readfile:duplicate-accepted" : "c14:readfile:corrupt-file-accepted:kind%d", corrupt); hm_violation(key, rv ? "Crystal_ReadFile returned 1" : "0 without error"); }
         if (e) xrl_error_free(e);
         check_array(&A, dup ? "rejected-readfile-duplicate" : "rejected-readfile-corrupt");
       }
       free(fc);
     } else if (op < 70 && !builtin) {
-      e = NULL; LAST("Crystal_ReadFile(missing)"); TR("readmissing;"); rv = Crystal_ReadFile("/nonexistent/xv-file.dat", A.arr, &e); count_op(OP_READ_MISSING, 0);
-      if (rv || !e) hm_violation("c14:readfile:missing-file-accepted", "no error"); if (e) xrl_error_free(e);
+      e = NULL; LAST("Crystal_ReadFile(missing)"); TR("readmissing;"); rv = Crystal_ReadFile("/nonexistent/xv-file.dat", A.arr, ep); count_op(OP_READ_MISSING, 0);
+      if (rv || (ep && !e)) hm_violation("c14:readfile:missing-file-accepted", "no error"); if (e) xrl_error_free(e);
       check_array(&A, "missing-file");
     } else if (op < 76) {
-      e = NULL; LAST("Crystal_GetCrystal(absent)"); TR("getabsent;"); s = Crystal_GetCrystal("no such crystal!", A.arr, &e); count_op(OP_GET_ABSENT, 0);
-      if (s || !e) hm_violation("c14:absent-lookup-succeeded", "non-NULL or no error"); if (s) Crystal_Free(s); if (e) xrl_error_free(e);
+      e = NULL; LAST("Crystal_GetCrystal(absent)"); TR("getabsent;"); s = Crystal_GetCrystal("no such crystal!", A.arr, ep); count_op(OP_GET_ABSENT, 0);
+      if (s || (ep && !e)) hm_violation("c14:absent-lookup-succeeded", "non-NULL or no error"); if (s) Crystal_Free(s); if (e) xrl_error_free(e);
     } else if (op < 78) {
-      e = NULL; LAST("Crystal_GetCrystal(NULL)"); TR("getnull;"); s = Crystal_GetCrystal(NULL, A.arr, &e); count_op(OP_GET_NULL, 0);
-      if (s || !e) hm_violation("c14:null-lookup-succeeded", "non-NULL or no error"); if (s) Crystal_Free(s); if (e) xrl_error_free(e);
+      e = NULL; LAST("Crystal_GetCrystal(NULL)"); TR("getnull;"); s = Crystal_GetCrystal(NULL, A.arr, ep); count_op(OP_GET_NULL, 0);
+      if (s || (ep && !e)) hm_violation("c14:null-lookup-succeeded", "non-NULL or no error"); if (s) Crystal_Free(s); if (e) xrl_error_free(e);
     } else if (op < 88) {                                                   /* ---- copies stay valid after the original and the array entry are gone */
       Crystal_Struct *g, *cp; int k;
       if (!A.n) continue;
